@@ -1,5 +1,7 @@
 import Juniper.Proofs.TreeOps
 import Juniper.Proofs.TreeIter
+import Juniper.Proofs.TreeHandle
+import Juniper.Proofs.TreeSpecAdequacy
 /-!
 # C01 — tree.Map/Set answer every call exactly like an ideal sorted map (property theorems)
 
@@ -8,6 +10,7 @@ Only property theorems and their non-vacuity examples live here; helper lemmas a
 -/
 namespace Juniper.Props.C01
 open Juniper.Gen.Tree Juniper.Model.BTree Juniper.Proofs.Tree
+open Juniper.Model.TreeHandle Juniper.Proofs.TreeHandle
 
 variable {K : Type}
 
@@ -57,11 +60,6 @@ theorem lessCompare_sign (less : K → K → Bool) (a b : K) :
     (lessCmp less a b = 0 ↔ (less a b = false ∧ less b a = false)) := by
   unfold lessCmp lessCompare
   cases hab : less a b <;> cases hba : less b a <;> simp
-
-/-- `Map` and `Set` are handles: a struct of exactly one pointer field with value receivers whose
-methods forward to the shared `btree` — a copy denotes the same collection. -/
-theorem map_set_are_handles :
-    mapIsHandle = true ∧ setIsHandle = true ∧ mapForwards = true ∧ setForwards = true := by decide
 
 variable {V : Type}
 
@@ -201,6 +199,61 @@ example : ∃ t' : Tree Int Int, ∃ outs,
   simp [specOps, specOp, sput] at this
   exact this.symm
 
+/-- non-vacuity with an order in which *equivalent* is coarser than *equal* (`coarse a b = a/10 - b/10`,
+a strict weak order): `Put 17` overwrites the value stored under `12` and keeps the stored key `12`,
+`Get 13` finds it. -/
+example : StrictWeak coarse ∧ ∃ t' : Tree Int Int, ∃ outs,
+    runOps coarse Tree.empty [.put 12 1, .put 17 2, .put 25 3, .get 13, .first, .last, .len] = some (t', outs) ∧
+      toList t'.root = [(12, 2), (25, 3)] ∧
+      outs = [.unit, .unit, .unit, .val (some 2), .entry (some (12, 2)), .entry (some (25, 3)), .int 2] := by
+  refine ⟨coarse_strictWeak, ?_⟩
+  obtain ⟨t', outs, h1, h2⟩ := history_refines (V := Int) coarse coarse_strictWeak
+    [.put 12 1, .put 17 2, .put 25 3, .get 13, .first, .last, .len]
+  refine ⟨t', outs, h1, ?_⟩
+  have e : specOps coarse ([] : List (Int × Int)) [.put 12 1, .put 17 2, .put 25 3, .get 13, .first, .last, .len] =
+      ([(12, 2), (25, 3)], [.unit, .unit, .unit, .val (some 2), .entry (some (12, 2)), .entry (some (25, 3)), .int 2]) := rfl
+  rw [e] at h2
+  exact ⟨(congrArg Prod.fst h2).symm, (congrArg Prod.snd h2).symm⟩
+
+/-- non-vacuity on a tree of two levels: 20 ascending `Put`s split the root (`0 < height`), then a
+`Delete`, a `Range` with an included and an excluded bound, a `RangeReverse` and `Len`. -/
+example : ∃ t' : Tree Int Int, ∃ outs,
+    runOps (fun a b => a - b) Tree.empty
+      ((List.range 20).map (fun (i : Nat) => Op.put (i : Int) (10 * (i : Int))) ++
+        [.del 3, .range ⟨some .incl, 2⟩ ⟨some .excl, 6⟩, .rrange ⟨some .unb, 0⟩ ⟨some .incl, 1⟩, .len]) = some (t', outs) ∧
+      0 < height t'.root ∧
+      outs.drop 20 = [.unit, .items [(2, some 20), (4, some 40), (5, some 50)], .items [(1, some 10), (0, some 0)], .int 19] := by
+  have hc : StrictWeak (fun a b : Int => a - b) := ⟨by intro a b; omega, by intro a b c; omega⟩
+  obtain ⟨t', outs, h1, hi, h2⟩ := runOps_refines hc
+    ((List.range 20).map (fun (i : Nat) => Op.put (i : Int) (10 * (i : Int))) ++
+      [.del 3, .range ⟨some .incl, 2⟩ ⟨some .excl, 6⟩, .rrange ⟨some .unb, 0⟩ ⟨some .incl, 1⟩, .len])
+    (Tree.empty : Tree Int Int) (inv_empty _)
+  have hl : ((specOps (fun a b : Int => a - b) (toList (Tree.empty : Tree Int Int).root)
+      ((List.range 20).map (fun (i : Nat) => Op.put (i : Int) (10 * (i : Int))) ++
+        [.del 3, .range ⟨some .incl, 2⟩ ⟨some .excl, 6⟩, .rrange ⟨some .unb, 0⟩ ⟨some .incl, 1⟩, .len])).1.length : Int) = 19 := by
+    simp only [Tree.empty, toList_leaf]; rfl
+  have ho : (specOps (fun a b : Int => a - b) (toList (Tree.empty : Tree Int Int).root)
+      ((List.range 20).map (fun (i : Nat) => Op.put (i : Int) (10 * (i : Int))) ++
+        [.del 3, .range ⟨some .incl, 2⟩ ⟨some .excl, 6⟩, .rrange ⟨some .unb, 0⟩ ⟨some .incl, 1⟩, .len])).2.drop 20 =
+      [.unit, .items [(2, some 20), (4, some 40), (5, some 50)], .items [(1, some 10), (0, some 0)], .int 19] := by
+    simp only [Tree.empty, toList_leaf]; rfl
+  rw [h2] at hl ho
+  exact ⟨t', outs, h1, height_pos_of_large hi.wf (by rw [hl]; decide), ho⟩
+
+/-- the ideal sorted map is a map: after `sput k v`, a lookup under any key *equivalent* to `k` yields
+`v` … -/
+theorem sget_sput_same (cmp : K → K → Int) (hc : StrictWeak cmp) (k k' : K) (v : V) (L : List (K × V))
+    (he : cmp k' k = 0) : (sget cmp k' (sput cmp k v L)).map (·.2) = some v :=
+  sget_sput_same_aux hc v he L
+
+/-- … and a lookup under a key that is not equivalent to `k` is unaffected. -/
+theorem sget_sput_other (cmp : K → K → Int) (hc : StrictWeak cmp) (k k' : K) (v : V) (L : List (K × V))
+    (hne : cmp k' k ≠ 0) : sget cmp k' (sput cmp k v L) = sget cmp k' L :=
+  sget_sput_other_aux hc v hne L
+
+example : sget (fun a b : Int => a - b) 2 (sput (fun a b : Int => a - b) 2 7 [(1, 10), (2, 20), (3, 30)]) = some (2, 7) ∧
+    sget coarse 15 (sput coarse 11 7 [(1, 10), (12, 20), (31, 30)]) = some (12, 7) := ⟨rfl, rfl⟩
+
 /-- A `Set` is a `Map` to `struct{}`: `Add`/`Remove`/`Contains`/`Len`/`First`/`Last`/`Range` forward to the
 same B-tree operations (generated forwarding fact), so every theorem above holds with `V := Unit`. -/
 theorem set_refines (cmp : K → K → Int) (hc : StrictWeak cmp) (os : List (Op K Unit)) :
@@ -208,6 +261,74 @@ theorem set_refines (cmp : K → K → Int) (hc : StrictWeak cmp) (os : List (Op
     ∃ t' outs, runOps cmp (Tree.empty : Tree K Unit) os = some (t', outs) ∧
       specOps cmp ([] : List (K × Unit)) os = (toList t'.root, outs) :=
   ⟨by decide, by decide, history_refines cmp hc os⟩
+
+/-- **Copies of a `Map` value denote the same collection.** `m0` is the value a constructor returns
+(`newHandle`: `Map{t: newBtree(…)}`, `newBtree` = `return &btree{…}`), `m1` a copy of it (`copyHandle`,
+whose meaning is the generated `mapIsHandle`: one field, a pointer). Every history of exported calls,
+each issued through either of the two values in any alternation (`true` = through the copy), is call
+by call the history of the ONE shared tree (`runOps`, in which the alternation does not occur) and
+hence of the ideal sorted map: whatever is done through one value is observed through the other.
+Each exported method is interpreted by the generated text of its body (`mapBodies`); a `btree` method
+updates the shared object only if its receiver — and that of every method writing `root`/`size`/`gen`
+— is a pointer (generated `btreeRecvIsPtr`, `btreeWritesHeader`); with `func (t btree[K, V]) Put` the
+model loses `size`, `gen` and a new root in the copy, and this theorem does not compile. -/
+theorem map_copies_denote_same_collection (cmp : K → K → Int) (hc : StrictWeak cmp) (ctor : String)
+    (hctor : ctor = "NewMap" ∨ ctor = "NewMapCmp") (os : List (Bool × Op K V)) :
+    ∃ s0 m0 s1 m1 t' outs,
+      newHandle ctor (Store.empty : Store K V) = some (s0, m0) ∧
+      copyHandle mapIsHandle s0 m0 = some (s1, m1) ∧
+      runVia (mapApply cmp) m0 m1 s1 os = some ({ objs := [t'] }, outs) ∧
+      runOps cmp (Tree.empty : Tree K V) (os.map (·.2)) = some (t', outs) ∧
+      specOps cmp ([] : List (K × V)) (os.map (·.2)) = (toList t'.root, outs) := by
+  obtain ⟨hn, hcp⟩ := new_then_copy (K := K) (V := V) ctor
+    (by rcases hctor with h | h <;> simp [h]) mapIsHandle (by decide) (by decide)
+  obtain ⟨t', outs, h1, h2⟩ := history_refines cmp hc (os.map (·.2))
+  refine ⟨_, _, _, _, t', outs, hn, hcp, ?_, h1, h2⟩
+  have := runVia_eq_runOps cmp (fun o : Op K V => o) (mapApply cmp) (mapApply_eq cmp (by decide)) os Tree.empty
+  rw [this, h1]; rfl
+
+/-- non-vacuity: `Put` through the original, `Put` and `Delete` through the copy, reads through both. -/
+example : ∃ s0 m0 s1 m1 t' outs,
+    newHandle "NewMap" (Store.empty : Store Int Int) = some (s0, m0) ∧ copyHandle mapIsHandle s0 m0 = some (s1, m1) ∧
+    runVia (mapApply (fun a b : Int => a - b)) m0 m1 s1
+      [(false, .put 1 10), (true, .put 2 20), (false, .len), (true, .del 1), (false, .get 2), (true, .has 1)] =
+        some ({ objs := [t'] }, outs) ∧
+    toList t'.root = [(2, 20)] ∧ outs = [.unit, .unit, .int 2, .unit, .val (some 20), .bool false] := by
+  have hc : StrictWeak (fun a b : Int => a - b) := ⟨by intro a b; omega, by intro a b c; omega⟩
+  obtain ⟨s0, m0, s1, m1, t', outs, h1, h2, h3, _, h5⟩ := map_copies_denote_same_collection (V := Int) _ hc "NewMap"
+    (Or.inl rfl) [(false, .put 1 10), (true, .put 2 20), (false, .len), (true, .del 1), (false, .get 2), (true, .has 1)]
+  refine ⟨s0, m0, s1, m1, t', outs, h1, h2, h3, ?_⟩
+  simp [specOps, specOp, sput, serase, sget] at h5
+  exact ⟨h5.1.symm, h5.2.symm⟩
+
+/-- **Copies of a `Set` value denote the same collection**: the same for `tree.Set` (`setIsHandle`,
+`setBodies`; `Add`/`Remove`/`Contains`/`Len`/`First`/`Last`/`Range`/`RangeReverse`). -/
+theorem set_copies_denote_same_collection (cmp : K → K → Int) (hc : StrictWeak cmp) (ctor : String)
+    (hctor : ctor = "NewSet" ∨ ctor = "NewSetCmp") (os : List (Bool × SetOp K)) :
+    ∃ s0 m0 s1 m1 t' outs,
+      newHandle ctor (Store.empty : Store K Unit) = some (s0, m0) ∧
+      copyHandle setIsHandle s0 m0 = some (s1, m1) ∧
+      runVia (setApply cmp) m0 m1 s1 os = some ({ objs := [t'] }, outs) ∧
+      runOps cmp (Tree.empty : Tree K Unit) (os.map (·.2.toOp)) = some (t', outs) ∧
+      specOps cmp ([] : List (K × Unit)) (os.map (·.2.toOp)) = (toList t'.root, outs) := by
+  obtain ⟨hn, hcp⟩ := new_then_copy (K := K) (V := Unit) ctor
+    (by rcases hctor with h | h <;> simp [h]) setIsHandle (by decide) (by decide)
+  obtain ⟨t', outs, h1, h2⟩ := history_refines cmp hc (os.map (·.2.toOp))
+  refine ⟨_, _, _, _, t', outs, hn, hcp, ?_, h1, h2⟩
+  have := runVia_eq_runOps cmp SetOp.toOp (setApply cmp) (setApply_eq cmp (by decide)) os Tree.empty
+  rw [this, h1]; rfl
+
+example : ∃ s0 m0 s1 m1 t' outs,
+    newHandle "NewSetCmp" (Store.empty : Store Int Unit) = some (s0, m0) ∧ copyHandle setIsHandle s0 m0 = some (s1, m1) ∧
+    runVia (setApply (fun a b : Int => a - b)) m0 m1 s1
+      [(true, .add 5), (false, .add 3), (true, .remove 5), (false, .contains 5), (true, .len)] = some ({ objs := [t'] }, outs) ∧
+    toList t'.root = [(3, ())] ∧ outs = [.unit, .unit, .unit, .bool false, .int 1] := by
+  have hc : StrictWeak (fun a b : Int => a - b) := ⟨by intro a b; omega, by intro a b c; omega⟩
+  obtain ⟨s0, m0, s1, m1, t', outs, h1, h2, h3, _, h5⟩ := set_copies_denote_same_collection _ hc "NewSetCmp"
+    (Or.inr rfl) [(true, .add 5), (false, .add 3), (true, .remove 5), (false, .contains 5), (true, .len)]
+  refine ⟨s0, m0, s1, m1, t', outs, h1, h2, h3, ?_⟩
+  simp [specOps, specOp, sput, serase, sget, SetOp.toOp] at h5
+  exact ⟨h5.1.symm, h5.2.symm⟩
 
 /-- Concurrent clause, the part a sequential model can state (**partial**; the full clause — "puts from
 several goroutines to distinct present keys concurrent with reads of other keys are free of data races
